@@ -171,12 +171,68 @@ def run(prop, args):
     missing = [g for g in base_regions if rep.regions.get(g, 0) == 0]
     if missing:
         R.harness_error("generator reached none of: %s" % missing)
+    if prop == "C01" and args.tier == "thorough":
+        fuzz_audit(rep, args)
     rep.assumptions = [
         "stream semantics = maintainers' executor in tests/test_validity.py, extended to all passes/storages (DESIGN 2.2)",
         "online schedules are finalised by the driver as soon as a Forward reaches the true step count n",
         "adjoint passes permitted per class taken from the class docstrings, not from is_exhausted",
     ]
     return rep.finish(shrink_fn=lambda b, w: shrink(prop, b, w))
+
+
+def fuzz_audit(rep, args, runs=15000, procs=16):
+    """Secondary engine (DESIGN 7): 16 independent atheris/libFuzzer campaigns over the
+    byte-decoded config space with the reference executor as in-target oracle. Audits generator
+    reach with coverage feedback; any violating input goes through the normal bucket/shrink path."""
+    import json
+    import os
+    import shutil
+    import subprocess
+    import sys
+    import tempfile
+    deps = os.path.join(R.VERIF, ".deps")
+    env = dict(os.environ)
+    env["PYTHONPATH"] = os.pathsep.join([R.VERIF, deps, env.get("PYTHONPATH", "")])
+    probe = subprocess.run([sys.executable, "-c", "import atheris"], env=env, capture_output=True)
+    if probe.returncode != 0:
+        rep.extra["atheris"] = "not importable (setup.sh could not install the wheel); secondary engine skipped"
+        return
+    base = tempfile.mkdtemp(prefix="verif_fuzz_")
+    try:
+        ps = []
+        for k in range(procs):
+            out = os.path.join(base, "f%d" % k)
+            ps.append((out, subprocess.Popen([sys.executable, "-m", "vlib.fuzz_c01", out, "-runs=%d" % runs, "-seed=%d" % (args.seed * 100 + k + 1),
+                                              "-max_len=64", "-print_final_stats=0"], cwd=R.VERIF, env=env,
+                                             stdout=subprocess.DEVNULL, stderr=subprocess.DEVNULL)))
+        total = {"executions": 0, "distinct": 0, "violating_inputs": 0, "by_class": {}}
+        viol_cfgs = []
+        for out, pr in ps:
+            try:
+                pr.wait(timeout=3600)
+            except subprocess.TimeoutExpired:
+                pr.kill()
+            try:
+                st = json.load(open(os.path.join(out, "stats.json")))
+            except Exception:
+                continue
+            total["executions"] += st["executions"]
+            total["distinct"] += st["distinct"]
+            for c, v in st["by_class"].items():
+                total["by_class"][c] = total["by_class"].get(c, 0) + v
+            vf = os.path.join(out, "violations.jsonl")
+            if os.path.exists(vf):
+                for line in open(vf):
+                    viol_cfgs.append(json.loads(line)["cfg"])
+        total["violating_inputs"] = len(viol_cfgs)
+        rep.extra["atheris"] = total
+        rep.evaluations += total["executions"]
+        for cfg in viol_cfgs[:200]:
+            for b, w, d, k in check_witness(rep.prop, {"witness": cfg}):
+                rep.add_violation(b, w, d, kind=k)
+    finally:
+        shutil.rmtree(base, ignore_errors=True)
 
 
 def sample_of(cfg, r):
